@@ -59,8 +59,8 @@ def run(chk):
         run_iterprog(chk, facts, "C02-h", ("skrifa", "incremental_font_transfer", "shared_brotli_patch_decoder"), 1)
     from . import trec
     trec.run_scope(chk, "C02-b", scope="client", floor=12)
-    chk.assume("bounds/overflow sites outside the checked zones (scaler buffer slicing, CFF and autohinter arithmetic), loop "
-               "termination in CFF/autohint code and non-finite float handling are not decided")
+    chk.assume("not decided: the sites and loops that rules/site_baseline.json lists as untriaged (scaler buffer slicing, autohinter "
+               "indexing and ring walks, cursor-driven decoders), finiteness of repo-defined iterators, non-finite float handling")
 
 
 def run_skrifa(chk, facts, cfg):
